@@ -34,6 +34,12 @@ CHECKS = {
    text="Every (kind, len, start, stop, step) of the stated box is enumerated (8 value kinds x len 0..=6 x 20 x 20 x 10 bounds, literal and variable form) together with i64-boundary and beyond-i64 rows and random cases; results (kind and items) are compared with an independent model of Python's slicing and subscripting.",
    note="Trusts model/pyslice.rs (unit tested on CPython examples, cross-checked with python3 in the thorough tier). Out-of-range subscripts are expected to be undefined. Exhaustive only inside the stated box.",
    design="3/C09"),
+ "C10": dict(
+   technique="model-based property testing (whitespace rules as worded vs engine, enumerated for short sequences and generated beyond) plus metamorphic testing (same program under 12 delimiter sets, line statements vs whole-line block tags)",
+   level="exploration",
+   text="(a) Sequences of text and variable/block/comment/raw tags with every marker on either side are rendered under the 8 whitespace settings and compared with an independent model of the documented rules; all sequences of length <= 2 and all text-tag-text / tag-text-tag triples over a 37-symbol alphabet are enumerated. (b) Generated single-file programs whose text consists of partial and look-alike delimiters must render identically (or fail alike) with default delimiters and with each of 12 delimiter sets incl. prefix-sharing and nested-prefix ones. (c) Default-looking delimiters are verbatim text under a custom syntax; line statements/comments behave like whole-line tags.",
+   note="A lone CR next to a tag is outside the model (undocumented whether it is a line boundary). (b) compares the engine with itself under two printings of the same AST; the core-fragment reference interpreter is used by C03, not here.",
+   design="3/C10"),
  "C12": dict(
    technique="property-based testing: metamorphic relation over four configurations (Strict/SemiStrict/Lenient/Chainable renders of the same generated program), plus complete enumeration of the documented site x mode matrix",
    level="exploration",
